@@ -141,7 +141,20 @@ pub fn writer_scenarios(seed: u64, max_len: usize) -> Vec<WScn> {
         let inner = exec(&[Call::SetComment(b"inner".to_vec()), Call::StartFile { name: "inner.txt".into(), opts: FOpts::m(0) }, Call::Write(b"inner content".to_vec()), Call::Finish], &[]).1;
         exec(&[Call::StartFile { name: "outer.txt".into(), opts: FOpts::m(8) }, Call::Write(b"outer content".to_vec()), Call::StartFile { name: "nested.zip".into(), opts: FOpts::m(0) }, Call::Write(inner), Call::Finish], &[]).1
     }));
+    // bases whose old end structures are longer than the new ones will be (forced ZIP64 end records, with and without an
+    // extensible data sector; a long archive comment that the round replaces): the writer then has to know how long the
+    // stream was, blank the stale records and write the directory again
+    {
+        use crate::reference::zipbuild::{build, ESpec, Spec};
+        let e = |n: &str, m: u16| ESpec { name: n.as_bytes().to_vec(), method: m, content: b"entry of a base with long end records, entry of a base".to_vec(), ..Default::default() };
+        bases.push(("base-forced-zip64-end", build(&Spec { entries: vec![e("a", 0), e("b", 8)], force_zip64_eocd: true, comment: b"z64".to_vec(), ..Default::default() }).0));
+        bases.push(("base-forced-zip64-end-with-sector", build(&Spec { entries: vec![e("a", 8)], force_zip64_eocd: true, zip64_ext: vec![0x33; 300], ..Default::default() }).0));
+        bases.push(("base-long-comment", build(&Spec { entries: vec![e("a", 0)], comment: vec![b'c'; 400], ..Default::default() }).0));
+    }
     for (bl, b) in &bases {
+        if bl.starts_with("base-long-comment") || bl.starts_with("base-forced-zip64") {
+            v.push(WScn { label: format!("append:{bl}+short-comment"), base: Some(b.clone()), calls: vec![Call::SetComment(b"s".to_vec()), Call::Finish], pw: false });
+        }
         v.push(WScn { label: format!("append:{bl}+nothing"), base: Some(b.clone()), calls: vec![Call::Finish], pw: false });
         for c in &al {
             let mut calls = c.1.clone();
